@@ -320,7 +320,7 @@ def oRestG (g : Bool) (acc : O) (pty : Ty) : Rest → O
   | .nil => acc
   | .cons op dict ty e rest =>
     -- the parentheses around the container of an `in` belong to the call form itself, also in Python's tree
-    oRestG g (stepO op dict pty ty acc (guardO ((g || isIn op) && isRegrouped e op.tok) (oOfG g e))) ty rest
+    oRestG g (stepO op dict pty ty acc (guardO ((g || isIn op) && isRegrouped e op.tok) (oOfG g e))) (pty.acc ty) rest
 end
 
 /-- the emitted tree -/
